@@ -74,7 +74,7 @@ type c35Case struct {
 
 // header kinds
 var c35ValidHK = []string{"get", "post", "post-te-trailers"}
-var c35BadHK = []string{"no-method", "no-path", "no-scheme", "empty-path", "unknown-pseudo", "status-pseudo", "dup-path",
+var c35BadHK = []string{"head-open-body", "bad-method", "bad-path", "no-method", "no-path", "no-scheme", "empty-path", "unknown-pseudo", "status-pseudo", "dup-path",
 	"pseudo-after-regular", "uppercase-name", "connection", "keep-alive", "proxy-connection", "transfer-encoding", "upgrade", "te-gzip"}
 
 func c35Fields(hk string, k int) []hpack.HeaderField {
@@ -93,6 +93,12 @@ func c35Fields(hk string, k int) []hpack.HeaderField {
 		return []hpack.HeaderField{hf("x-t", "1"), tag}
 	case "trailers-pseudo":
 		return []hpack.HeaderField{hf(":path", "/x"), hf("x-t", "1"), tag}
+	case "head-open-body":
+		return append(base("HEAD"), tag)
+	case "bad-method":
+		return []hpack.HeaderField{hf(":method", "G T"), hf(":scheme", "https"), hf(":authority", "verif.test"), hf(":path", "/s"), tag}
+	case "bad-path":
+		return []hpack.HeaderField{hf(":method", "GET"), hf(":scheme", "https"), hf(":authority", "verif.test"), hf(":path", "no-slash"), tag}
 	case "no-method":
 		return []hpack.HeaderField{hf(":scheme", "https"), hf(":authority", "verif.test"), hf(":path", "/s"), tag}
 	case "no-path":
@@ -127,6 +133,17 @@ func c35Fields(hk string, k int) []hpack.HeaderField {
 	return append(base("GET"), tag)
 }
 
+// c35RefusalClass groups the malformed request shapes by what is wrong with them.
+func c35RefusalClass(hk string) string {
+	switch hk {
+	case "unknown-pseudo", "status-pseudo", "dup-path", "pseudo-after-regular", "uppercase-name":
+		return "malformed-block" // the header block itself breaks 8.1.2 (field names, pseudo-header set or order)
+	case "connection", "keep-alive", "proxy-connection", "transfer-encoding", "upgrade", "te-gzip":
+		return "connection-specific"
+	}
+	return "bad-request-line" // missing/empty/invalid :method :path :scheme, HEAD with a body
+}
+
 func c35IsValid(hk string) bool {
 	for _, v := range c35ValidHK {
 		if v == hk {
@@ -142,14 +159,17 @@ type c35RefStream struct {
 	state    string // open | hcr | closed
 	closedBy string // client-rst | ended | server
 	mode     string
-	limbo    bool // the opening HEADERS was malformed: the RFC and implementations disagree on what the id is now
+	limbo    bool   // (unused since the refused-open rule was tightened; kept for the adoption logic)
+	refused  string // non-empty: the HEADERS that opened the stream was refused; class of the refusal
 	opIdx    int
 }
 
 type c35Ref struct {
 	streams      map[uint32]*c35RefStream
-	maxAccepted  uint32
+	maxAccepted  uint32 // highest id used by a HEADERS frame that opened a stream, served or refused (5.1.1)
 	maxAttempted uint32
+	maxServed    uint32 // highest id whose request was accepted
+	topRefusal   string // class of the refusal that set maxAccepted, "" if it was an accepted stream
 }
 
 func (rf *c35Ref) openCount() int {
@@ -167,10 +187,14 @@ const (
 	expReject = "REJECT"
 	expConn   = "CONN"
 	expEither = "EITHER"
+	expNoConn = "NOCONN" // may be ignored or answered with a stream error, but must not end the connection
 )
 
 // classify returns the expectation and a shape string, and advances the reference state.
 func (rf *c35Ref) classify(k int, op c35Op) (exp, shape string) {
+	if op.HK == "head-open-body" {
+		op.ES = false // HEAD with END_STREAM would be a valid request; this shape is HEAD with an open body
+	}
 	st := rf.streams[op.ID]
 	stateOf := func() string {
 		switch {
@@ -178,6 +202,10 @@ func (rf *c35Ref) classify(k int, op c35Op) (exp, shape string) {
 			return "stream0"
 		case st != nil && st.limbo:
 			return "after-malformed-open"
+		case st != nil && st.refused != "":
+			// RFC 7540 5.1.1: the refused HEADERS opened the stream (and the stream error closed it);
+			// its identifier is used up and the stream is closed, not idle
+			return "refused-open:" + st.refused
 		case st != nil && st.mode == "self" && st.state != "closed":
 			// a stream the tracker adopted from the server (accepted EITHER HEADERS) whose handler
 			// finishes at a time the script does not control: every frame on it races with its end
@@ -190,6 +218,8 @@ func (rf *c35Ref) classify(k int, op c35Op) (exp, shape string) {
 			return "open"
 		case op.ID%2 == 0:
 			return "even-idle"
+		case op.ID < rf.maxAccepted && op.ID > rf.maxServed && rf.topRefusal != "":
+			return "below-refused-open:" + rf.topRefusal
 		case op.ID < rf.maxAccepted:
 			return "implicitly-closed"
 		case op.ID < rf.maxAttempted:
@@ -205,6 +235,11 @@ func (rf *c35Ref) classify(k int, op c35Op) (exp, shape string) {
 			es = "+ES"
 		}
 		shape = "HEADERS(" + op.HK + ")" + es + "@" + s
+		if strings.HasPrefix(s, "refused-open:") || strings.HasPrefix(s, "below-refused-open:") {
+			// the identifier is not greater than one already used: must not be served
+			// (connection error PROTOCOL_ERROR per 5.1.1; a stream error is tolerated)
+			return expReject, "HEADERS@" + s
+		}
 		switch s {
 		case "stream0", "after-malformed-open", "closed-by-server", "below-attempted":
 			return expEither, shape
@@ -235,12 +270,15 @@ func (rf *c35Ref) classify(k int, op c35Op) (exp, shape string) {
 				rf.maxAttempted = op.ID
 			}
 			if !c35IsValid(op.HK) {
-				rf.streams[op.ID] = &c35RefStream{state: "closed", closedBy: "server", limbo: true, opIdx: k}
+				cls := c35RefusalClass(op.HK)
+				rf.streams[op.ID] = &c35RefStream{state: "closed", closedBy: "server", refused: cls, opIdx: k}
+				rf.maxAccepted, rf.topRefusal = op.ID, cls
 				return expReject, shape
 			}
 			if rf.openCount() >= c35MaxStreams {
 				shape = "HEADERS(valid)" + es + "@over-concurrency-limit"
-				rf.streams[op.ID] = &c35RefStream{state: "closed", closedBy: "server", limbo: true, opIdx: k}
+				rf.streams[op.ID] = &c35RefStream{state: "closed", closedBy: "server", refused: "over-limit", opIdx: k}
+				rf.maxAccepted, rf.topRefusal = op.ID, "over-limit"
 				return expReject, shape
 			}
 			ns := &c35RefStream{state: "open", mode: op.Mode, opIdx: k}
@@ -248,7 +286,7 @@ func (rf *c35Ref) classify(k int, op c35Op) (exp, shape string) {
 				ns.state = "hcr"
 			}
 			rf.streams[op.ID] = ns
-			rf.maxAccepted = op.ID
+			rf.maxAccepted, rf.maxServed, rf.topRefusal = op.ID, op.ID, ""
 			return expLegal, shape
 		}
 	case "data":
@@ -275,6 +313,9 @@ func (rf *c35Ref) classify(k int, op c35Op) (exp, shape string) {
 		return expEither, shape
 	case "rst":
 		shape = "RST_STREAM@" + s
+		if strings.HasPrefix(s, "refused-open:") {
+			return expLegal, shape // RST_STREAM for a closed stream: must not be taken for an idle one (6.4)
+		}
 		switch s {
 		case "open", "half-closed-remote":
 			st.state, st.closedBy = "closed", "client-rst"
@@ -282,8 +323,15 @@ func (rf *c35Ref) classify(k int, op c35Op) (exp, shape string) {
 		}
 		return expEither, shape
 	case "priority":
+		if strings.HasPrefix(s, "refused-open:") {
+			return expNoConn, "PRIORITY@" + s
+		}
 		return expEither, "PRIORITY@" + s
 	case "wupdate":
+		if strings.HasPrefix(s, "refused-open:") {
+			// closed stream: ignore or stream error, never a connection error for an "idle" stream
+			return expNoConn, "WINDOW_UPDATE@" + s
+		}
 		return expEither, fmt.Sprintf("WINDOW_UPDATE(%d)@%s", op.N, s)
 	case "cont-abuse":
 		return expEither, "HEADERS-without-END_HEADERS-then-PING"
@@ -392,7 +440,52 @@ func c35Gen(r *vkit.Run, i int) *c35Case {
 				return ids[g.Intn(len(ids))]
 			}
 		}
+		// follow-ups to a refused open: its id N again, a lower unused odd id, RST_STREAM / WINDOW_UPDATE /
+		// PRIORITY on N, or a fresh higher id that must still work
+		var refused []uint32
+		for id, st := range rf.streams {
+			if st.refused != "" {
+				refused = append(refused, id)
+			}
+		}
+		for a := 1; a < len(refused); a++ {
+			for b := a; b > 0 && refused[b] < refused[b-1]; b-- {
+				refused[b], refused[b-1] = refused[b-1], refused[b]
+			}
+		}
+		steer := len(refused) > 0 && g.Chance(2, 5)
+		if steer {
+			N := refused[g.Intn(len(refused))]
+			valid := c35ValidHK[g.Intn(len(c35ValidHK))]
+			mode := []string{"block", "now", "now"}[g.Intn(3)]
+			switch g.Intn(7) {
+			case 0:
+				op = c35Op{Kind: "headers", ID: N, HK: valid, ES: g.Bool(), Mode: mode}
+			case 1:
+				low := N
+				for c := N; c >= 3; c -= 2 {
+					if _, used := rf.streams[c-2]; !used {
+						low = c - 2
+						break
+					}
+				}
+				op = c35Op{Kind: "headers", ID: low, HK: valid, ES: g.Bool(), Mode: mode}
+			case 2:
+				op = c35Op{Kind: "rst", ID: N}
+			case 3:
+				op = c35Op{Kind: "wupdate", ID: N, N: 1}
+			case 4:
+				op = c35Op{Kind: "priority", ID: N, Dep: 0}
+			default:
+				id := nextOdd()
+				if id > 19 {
+					steer = false
+				}
+				op = c35Op{Kind: "headers", ID: id, HK: valid, ES: true, Mode: "now"}
+			}
+		}
 		switch x := g.Intn(20); {
+		case steer:
 		case x < 7:
 			op = c35Op{Kind: "headers", ID: pickID(), ES: g.Bool(), Split: g.Chance(1, 5)}
 			st := rf.streams[op.ID]
@@ -444,7 +537,7 @@ func c35Gen(r *vkit.Run, i int) *c35Case {
 				op = c35Op{Kind: "priority", ID: pickID(), Dep: uint32(g.Intn(10))}
 			}
 		}
-		exp, _ := rf.classify(k, op)
+		exp, shp := rf.classify(k, op)
 		if op.Kind == "release" {
 			if s := rf.streams[op.ID]; s != nil {
 				if s.state == "open" {
@@ -454,7 +547,7 @@ func c35Gen(r *vkit.Run, i int) *c35Case {
 				}
 			}
 		}
-		if exp == expLegal && op.Kind != "release" && g.Chance(1, 4) {
+		if exp == expLegal && op.Kind != "release" && !strings.Contains(shp, "refused-open") && g.Chance(1, 4) {
 			op.NoSync = true
 		}
 		if op.Kind == "headers" && exp == expLegal && op.Mode != "block" {
@@ -571,7 +664,7 @@ func c35RunCase(r *vkit.Run, cs *c35Case) (out c35Outcome) {
 			if exp == expReject || exp == expConn {
 				mustNotRun = append(mustNotRun, k)
 			}
-			o := h2cli.HeadersOpt{EndStream: op.ES}
+			o := h2cli.HeadersOpt{EndStream: op.ES && op.HK != "head-open-body"}
 			if op.Split {
 				o.Split = 3
 			}
@@ -638,8 +731,8 @@ func c35RunCase(r *vkit.Run, cs *c35Case) (out c35Outcome) {
 		}
 		allLegal := true
 		for _, p := range group {
-			if p.exp != expLegal {
-				allLegal = false
+			if p.exp != expLegal && p.exp != expNoConn {
+				allLegal = false // a connection error in this window may belong to that other frame
 			}
 		}
 		for gi, p := range group {
@@ -708,6 +801,20 @@ func c35RunCase(r *vkit.Run, cs *c35Case) (out c35Outcome) {
 					viol("no-error:"+p.shape, fmt.Sprintf("op %d %v must be refused (stream or connection error); server sent neither RST_STREAM for stream %d nor GOAWAY", p.k, p.op, p.op.ID), p.k)
 					return
 				}
+			case expNoConn:
+				out.rejects++
+				if connErr && !allLegal {
+					break // pipelined with a frame that may legitimately end the connection: not attributable
+				}
+				if connErr {
+					code := "close"
+					if goAway != nil {
+						code = goAway.ErrCode.String()
+					}
+					viol("connection-error:"+p.shape+":"+code, fmt.Sprintf("op %d %v addresses a closed stream (its opening HEADERS was refused, the identifier is used) but the connection ended (%s)", p.k, p.op, code), p.k)
+					return
+				}
+				r.Count("frames_on_refused_stream_tolerated", 1)
 			case expLegal:
 				out.legals++
 				if !allLegal || gi < 0 {
@@ -901,7 +1008,13 @@ func c35PanicShape(stack, p string) string {
 }
 
 func c35(r *vkit.Run) {
-	r.SetRule("one case = one connection (net.Pipe, MAX_CONCURRENT_STREAMS=3) fed 3-24 frames over stream ids 0-9 (even, decreasing, reused): HEADERS (3 valid request shapes, 15 malformed ones: missing/empty/unknown/duplicate/misordered pseudo-headers, upper-case names, connection-specific fields, TE!=trailers; trailers with/without END_STREAM, with pseudo-headers; optional CONTINUATION split), DATA 0-100 octets with/without END_STREAM on every state, RST_STREAM, PRIORITY, WINDOW_UPDATE 0/1/2^31-1, HEADERS without END_HEADERS followed by PING, handler completion (handlers block until released, return at once, or read the body). Lockstep: PING round trip after each group (1/4 of legal frames are pipelined with the next). A reference tracker written from RFC 7540 5.1/5.1.1/5.1.2/8.1/8.1.2 classifies every frame LEGAL / REJECT / CONN / EITHER; only the rules named in the statement are REJECT/CONN (even or non-increasing ids, concurrency limit, DATA/HEADERS on closed or half-closed(remote) streams, trailers without END_STREAM or with pseudo-headers, malformed pseudo-headers, connection-specific fields); everything else (idle-stream DATA/RST/WINDOW_UPDATE, stream 0, ids reused after a malformed open, frames after a server-side reset) is EITHER. The tracker is self-checked against the server's open-stream count after every group. Independently: recovered serve panics (hook + H2PanicConn) and handler goroutine census after the connection ended. Non-trivial = at least one REJECT/CONN frame was judged; distinct = op list")
+	if os.Getenv("VH2_DEBUG") == "probe35" {
+		c35Probe()
+		r.SetMinDistinct(0)
+		r.Evals(1)
+		return
+	}
+	r.SetRule("one case = one connection (net.Pipe, MAX_CONCURRENT_STREAMS=3) fed 3-24 frames over stream ids 0-9 (even, decreasing, reused): HEADERS (3 valid request shapes, 15 malformed ones: missing/empty/unknown/duplicate/misordered pseudo-headers, upper-case names, connection-specific fields, TE!=trailers; trailers with/without END_STREAM, with pseudo-headers; optional CONTINUATION split), DATA 0-100 octets with/without END_STREAM on every state, RST_STREAM, PRIORITY, WINDOW_UPDATE 0/1/2^31-1, HEADERS without END_HEADERS followed by PING, handler completion (handlers block until released, return at once, or read the body). Lockstep: PING round trip after each group (1/4 of legal frames are pipelined with the next). A reference tracker written from RFC 7540 5.1/5.1.1/5.1.2/8.1/8.1.2 classifies every frame LEGAL / REJECT / CONN / EITHER; only the rules named in the statement are REJECT/CONN (even or non-increasing ids - an id whose opening HEADERS was refused with RST_STREAM, a 4xx answer or REFUSED_STREAM counts as used (5.1.1) and later HEADERS with that or a lower id must not be served, while RST_STREAM / WINDOW_UPDATE / PRIORITY on it address a closed stream and must not end the connection; concurrency limit, DATA/HEADERS on closed or half-closed(remote) streams, trailers without END_STREAM or with pseudo-headers, malformed pseudo-headers, connection-specific fields); everything else (idle-stream DATA/RST/WINDOW_UPDATE, stream 0, DATA after a server-side reset) is EITHER. The tracker is self-checked against the server's open-stream count after every group. Independently: recovered serve panics (hook + H2PanicConn) and handler goroutine census after the connection ended. Non-trivial = at least one REJECT/CONN frame was judged; distinct = op list")
 	r.Assume("x/net http2 Framer+hpack as client codec; a REJECT of a new request may be RST_STREAM, GOAWAY/close or a 4xx answer as long as the handler never runs")
 	if r.Replay != "" {
 		var w struct {
